@@ -951,7 +951,7 @@ def gen_sizes():
     return _write(os.path.join(GEN, 'Sizes.lean'), '\n'.join(out))
 
 
-SIZE_PROPS = {'C01', 'C10', 'C08', 'C03', 'C19', 'C13', 'C04', 'C11', 'C14'}     # the properties whose theorem lists include the size-arithmetic tie (C01Z)
+SIZE_PROPS = {'C01', 'C10', 'C08', 'C03', 'C19', 'C13', 'C04', 'C11', 'C14', 'C17', 'C02', 'C07', 'C05'}     # the properties whose theorem lists include the size-arithmetic tie (C01Z)
 
 PAD_PROPS = {'C01', 'C03', 'C04', 'C11'}      # the properties whose theorem lists include the padding-helper tie (C03T)
 
